@@ -170,12 +170,28 @@ def tasks(tier):
         for nm in ("2c-different-nbins-staterror", "all-seven-types"):
             B.run_one(T, nm, dict(K.CURATED)[nm], 2)
     out.append(("batched-variant", batched))
+    from .C02_tierp import tierp_tasks
+    out += tierp_tasks(tier)
     return out
 
 
 def replay(r):
     meta = r.get("meta") or {}
     skel = meta.get("skeleton")
+    if skel is None and "_constraint_combined" in r["name"]:
+        # tier P obligations carry no input: the constraint classes are exercised natively through Model.logpdf on curated skeletons
+        from .hf_native import native_compare
+        out = {"reproduced": False, "disagreements": []}
+        for sk in ("all-seven-types", "2c-different-nbins-staterror", "mixed-constraint-widths", "1c2s-normfactor-shapesys"):
+            for batch in (None, 2):
+                try:
+                    res = native_compare(dict(K.CURATED)[sk], what="logpdf", batch=batch)
+                except Exception as e:
+                    res = {"reproduced": True, "disagreements": [f"evaluation raises {type(e).__name__}: {e}"]}
+                if res.get("reproduced"):
+                    out["reproduced"] = True
+                    out["disagreements"].append({"skeleton": sk, "batch": batch, "first": res["disagreements"][:2]})
+        return out
     if skel is None:
         return None
     if meta.get("what") in ("constraint_logpdf", "expected_auxdata"):
